@@ -14,13 +14,29 @@ it is reached through (`aws_mem_acquire/calloc/realloc/release`).
   earlier may be offered again.  The parent allocator is a source of block ids (`big`), assumed
   fresh in the same way.
 * `pages` is the memory of the page headers of the pages currently held; `bins i` the `sba_bin`s.
-  Reading the header of a page that is not held yields "untagged" — for parent blocks this is the
-  ASSUMPTION stated in DESIGN 5.3 (the word at the page base of a parent block is not the tag).
+  Reading the header of a page that is not held yields "untagged".  For parent blocks this is an
+  ASSUMPTION of the model (the words at the page base of a parent block are not the tag): the
+  unlocked tag test of `s_sba_free` on memory the allocator does not own is NOT in the Lean model.
+  It is covered by a run instead: the check's plain (-O2) stage drives long random histories with
+  `malloc` as the parent, which recycles the memory of pages the allocator returned, so parent
+  blocks do land on such memory (`props/c03.py: history_runs`).  That run exposed the defect repaired
+  by /repo bdb9b25 (the tag erase before `s_aligned_free` was a dead store: freed pages kept valid
+  tags and a parent block placed there was released as a chunk).  User data that happens to carry
+  the tag value at a page base remains outside model and run.
 * Ghost state: `live` (blocks handed to the caller and not yet given back, with the requested
   size, in allocation order) and `mem` (byte contents, addressed by page/offset or parent block/offset).
-* Bin operations are atomic actions (`Act`): they run under the bin's mutex in the C code.  The
-  sequential API functions (`acquire`, `calloc`, `realloc`, `release`) are compositions of actions;
-  a multi-threaded history is a merge of per-thread action sequences.
+* Bin operations are atomic actions (`Act`): they run under the bin's mutex in the C code.  In
+  particular the free action contains the working-page test (`page != s_page_base(bin->page_cursor)`)
+  — in the source it is evaluated inside `s_sba_free_to_bin`, i.e. between `sba->lock` and
+  `sba->unlock`, and no bin state (`page_cursor`, `free_chunks`, `active_pages`, `alloc_count`) is
+  read outside the lock.  That is an ASSUMPTION of the model about the source; it is checked on the
+  source text at every regeneration (`props/c03.py: check_critical_sections`, a failure stops the
+  Lean stage) and tied by the scheduled run (`sched_stage`: the real multi-threaded allocator under
+  `harness/detsched.c`, every single preemption at the library's lock/unlock points per size class).
+  A version of the code that reads the cursor before taking the lock would need a split step
+  (unlocked read | locked part) in this transition system; the current code does not do that.
+  The sequential API functions (`acquire`, `calloc`, `realloc`, `release`) are compositions of
+  actions; a multi-threaded history is a merge of per-thread action sequences.
 -/
 namespace AwsVerif.Sba
 open AwsVerif.Gen.SbaConsts
